@@ -275,4 +275,71 @@ example :
     fwHop 5 0 65 (List.replicate 64 7) 35 = .error (.oobMa 64) := by
   decide +kernel
 
+/-- Cyclic hopping (HSN = 0) really is cyclic: the index advances by one per frame modulo N, so it repeats
+every N frames and any N consecutive frames visit N different channels of the mobile allocation. -/
+theorem spec_cyclic (maio n fn : Nat) (hn : 1 ≤ n) :
+    Spec.Hopping.mai 0 maio n (fn + 1) = (Spec.Hopping.mai 0 maio n fn).map (fun i => (i + 1) % n) ∧
+    Spec.Hopping.mai 0 maio n (fn + n) = Spec.Hopping.mai 0 maio n fn ∧
+    (∀ j k, j < n → k < n → Spec.Hopping.mai 0 maio n (fn + j) = Spec.Hopping.mai 0 maio n (fn + k) → j = k) := by
+  have hn0 : ¬ n = 0 := by omega
+  simp only [Spec.Hopping.mai, hn0, if_false, if_true, Option.map_some, Option.some.injEq]
+  refine ⟨?_, ?_, ?_⟩
+  · rw [show fn + 1 + maio = fn + maio + 1 by omega, Nat.add_mod (fn + maio) 1 n, Nat.add_mod ((fn + maio) % n) 1 n,
+      Nat.mod_mod]
+  · rw [show fn + n + maio = fn + maio + n by omega, Nat.add_mod_right]
+  · intro j k hj hk h
+    have e1 : fn + j + maio = (fn + maio) + j := by omega
+    have e2 : fn + k + maio = (fn + maio) + k := by omega
+    rw [e1, e2] at h
+    generalize fn + maio = a at h
+    have ha := Nat.div_add_mod a n
+    have hj' := Nat.div_add_mod (a + j) n
+    have hk' := Nat.div_add_mod (a + k) n
+    have hm := Nat.mod_lt a (show 0 < n by omega)
+    -- (a+j) and (a+k) are congruent modulo n and less than n apart
+    rcases Nat.lt_trichotomy j k with hlt | heq | hgt
+    · exfalso
+      have : (k - j) % n = 0 := by
+        have := Nat.sub_mod_eq_zero_of_mod_eq h.symm
+        rwa [show a + k - (a + j) = k - j by omega] at this
+      have := Nat.eq_zero_of_dvd_of_lt (Nat.dvd_of_mod_eq_zero this) (by omega)
+      omega
+    · exact heq
+    · exfalso
+      have : (j - k) % n = 0 := by
+        have := Nat.sub_mod_eq_zero_of_mod_eq h
+        rwa [show a + j - (a + k) = j - k by omega] at this
+      have := Nat.eq_zero_of_dvd_of_lt (Nat.dvd_of_mod_eq_zero this) (by omega)
+      omega
+
+/-- Pseudo-random hopping depends on the frame number only through T1R, T2, T3: the sequence repeats
+every 64 superframes (64·26·51 = 84864 frames), for every HSN ≠ 0, MAIO and N. -/
+theorem spec_hop_period (hsn maio n fn : Nat) (hh : hsn ≠ 0) :
+    Spec.Hopping.mai hsn maio n (fn + 84864) = Spec.Hopping.mai hsn maio n fn := by
+  have e1 : Spec.Hopping.t1r (fn + 84864) = Spec.Hopping.t1r fn := by
+    simp only [Spec.Hopping.t1r, Spec.Hopping.t1]; omega
+  have e2 : Spec.Hopping.t2 (fn + 84864) = Spec.Hopping.t2 fn := by
+    simp only [Spec.Hopping.t2]; omega
+  have e3 : Spec.Hopping.t3 (fn + 84864) = Spec.Hopping.t3 fn := by
+    simp only [Spec.Hopping.t3]; omega
+  simp only [Spec.Hopping.mai, hh, if_false, e1, e2, e3]
+
+
+/-- The periods carried over to the simulator's code model: `resolve(fn + 84864) = resolve(fn)` for
+pseudo-random hopping, `resolve(fn + N) = resolve(fn)` for cyclic hopping — for every frame number. -/
+theorem py_resolve_period {α : Type} (hsn maio fn : Nat) (ma : List α)
+    (hh : hsn < 64) (h1 : 1 ≤ ma.length) (h2 : ma.length ≤ 64) :
+    pyResolve (hsn : Int) (maio : Int) ma (fn + (if hsn = 0 then ma.length else 84864)) =
+      pyResolve (hsn : Int) (maio : Int) ma fn := by
+  obtain ⟨v, hv, hp⟩ := py_resolve_spec hsn maio fn ma hh h1 h2
+  obtain ⟨v', hv', hp'⟩ := py_resolve_spec hsn maio (fn + (if hsn = 0 then ma.length else 84864)) ma hh h1 h2
+  have : Spec.Hopping.select ma hsn maio (fn + (if hsn = 0 then ma.length else 84864)) =
+      Spec.Hopping.select ma hsn maio fn := by
+    simp only [Spec.Hopping.select]
+    by_cases h0 : hsn = 0
+    · subst h0; simp only [if_true, (spec_cyclic maio ma.length fn h1).2.1]
+    · simp only [h0, if_false, spec_hop_period hsn maio ma.length fn h0]
+  rw [this, hv] at hv'
+  rw [hp, hp', Option.some.inj hv']
+
 end OsmoVerif.Props.C07
